@@ -16,6 +16,7 @@
 from __future__ import annotations
 
 import asyncio
+import os
 import pathlib
 from asyncio.log import logger
 from collections.abc import AsyncIterable
@@ -195,8 +196,15 @@ class Controller(AbstractController):
             path.parent.mkdir(parents=True, exist_ok=True)
 
         try:
-            with open(filename, mode="w", encoding="utf-8") as output_fp:
+            # Write a temporary file in the same directory, make it durable, then
+            # atomically replace the old file: an interrupted save leaves either
+            # the old or the new pairing data, never a truncated file.
+            tmp_filename = f"{filename}.tmp"
+            with open(tmp_filename, mode="w", encoding="utf-8") as output_fp:
                 output_fp.write(hkjson.dumps_indented(data))
+                output_fp.flush()
+                os.fsync(output_fp.fileno())
+            os.replace(tmp_filename, filename)
         except PermissionError:
             raise ConfigSavingError(f'Could not write "{filename}" due to missing permissions')
         except FileNotFoundError:
